@@ -6,10 +6,12 @@ CONSTANTS
   ServerName = "localhost"
   ServerPort = 70
   HiCode = "FF"
+  Fixes = {}
   Tokens <- K_Tokens
   MaxTok = 2
   Shapes <- K_Shapes
   InnerTokens <- K_InnerTokens
+  Kinds2 <- K_Kinds2
   Views <- K_Views
   HLs <- K_HLs
 INVARIANT QuoteOK
